@@ -6,6 +6,8 @@ import Bandit.Drv.Format
 import Bandit.Drv.Discovery
 import Bandit.Drv.Manager
 import Bandit.Drv.ConfigLoad
+import Bandit.Drv.Cli
+import Bandit.Drv.Registry
 /-!
 # Line-protocol driver: one JSON request per line on stdin, one JSON answer per line on stdout.
 -/
@@ -14,7 +16,7 @@ open Lean Bandit
 namespace Drv
 
 /-- all registered ops; each area appends its own list here -/
-def allOps : List Op := coreOps ++ MetricsOps.ops ++ Drv.BaselineTool.ops ++ Drv.Baseline.ops ++ Drv.Fmt.ops ++ Discovery.ops ++ Drv.Manager.ops ++ Drv.ConfigLoad.ops
+def allOps : List Op := coreOps ++ MetricsOps.ops ++ Drv.BaselineTool.ops ++ Drv.Baseline.ops ++ Drv.Fmt.ops ++ Discovery.ops ++ Drv.Manager.ops ++ Drv.ConfigLoad.ops ++ CliOps.ops ++ Drv.Registry.ops
 
 def handle (line : String) : String :=
   match Json.parse line with
